@@ -27,7 +27,7 @@ TIERS = {
 KINDS = ['int64', 'int32', 'float64', 'float32', 'bool', 'str_obj', 'str_pd3', 'string_ext', 'cat', 'dt_ns', 'dt_us',
          'Int64', 'boolean', 'Float64', 'dateobj']
 MUTS = ['copy', 'copy', 'copy', 'value', 'value', 'null_to_value', 'value_to_null', 'float_small', 'float_large', 'rename', 'retype',
-        'move', 'drop', 'add_col', 'add_row', 'remove_row', 'swap_rows']
+        'move', 'drop', 'add_col', 'add_row', 'remove_row', 'swap_rows', 'retype_and_value']
 ENTRIES = ['check_dataframe', 'check_dataframe', 'assertDataFramesEqual', 'assertDataFrameCorrect-parquet',
            'assertDataFrameCorrect-csv', 'assertOnDisk-parquet', 'assertOnDisk-csv']
 RULE = ('case = reference frame (unique int key + 1-4 columns over 15 dtypes incl. object/str/string/categorical strings, '
@@ -40,7 +40,7 @@ ASSUMPTIONS = [
     'in-memory-vs-file entry points are judged only when the written reference reads back (pandas) with the same dtypes and values as the reference frame',
     'float differences are planted on a decimal grid (0.4 or 2 units of the last compared place) so that rounding is unambiguous',
 ]
-REQUIRED_MONITORS = ['inputs:relabelled_index', 'history:same_reference_reused', 'oracle:must-pass', 'oracle:must-fail', 'failure:message_checked', 'inputs:hashed'] + \
+REQUIRED_MONITORS = ['inputs:windows_of_one_parent', 'history:precision_then_default', 'inputs:relabelled_index', 'history:same_reference_reused', 'oracle:must-pass', 'oracle:must-fail', 'failure:message_checked', 'inputs:hashed'] + \
     ['entry:' + e for e in sorted(set(ENTRIES))] + ['reach:types_match', 'reach:single_col_diffs', 'reach:resolve_option_flag']
 REQUIRED_CLASSES = ['mut=%s' % m for m in sorted(set(MUTS))] + ['mut=key_crosses_condition'] + ['kind=%s' % k for k in KINDS]
 
@@ -168,6 +168,31 @@ def gen_case(rng, i):
                 tact['values'] = [None if v is None else v + 'T00:00:00' for v in tact['values']]
             tact['kind'] = new
             mut.update(col=tname, to=new)
+    elif mk == 'retype_and_value':
+        # the actual column is of a WIDER type than the reference column (acceptable at the looser type-matching
+        # levels, or when the column's type is not checked) and one of its values differs by an amount a narrowing
+        # cast would hide: 2.5 against int 2, 2**32+2 against int32 2, 2 against True
+        wide = [c for c in cols[1:] if c['kind'] in ('int64', 'int32', 'bool') and all(v is not None and abs(int(v)) < 2 ** 40 for v in c['values'])]
+        if not wide:
+            mut = {'kind': 'copy'}
+        else:
+            target = rng.choice(wide)
+            tname = target['name']
+            tact = [c for c in act['cols'] if c['name'] == tname][0]
+            r = rng.randrange(n)
+            v = target['values'][r]
+            if target['kind'] == 'int64':
+                tact['kind'] = 'float64'
+                tact['values'] = [float(x) for x in tact['values']]
+                tact['values'][r] = float(v) + 0.5
+            elif target['kind'] == 'int32':
+                tact['kind'] = 'int64'
+                tact['values'][r] = v + 2 ** 32
+            else:
+                tact['kind'] = 'int64'
+                tact['values'] = [int(x) for x in tact['values']]
+                tact['values'][r] = 2 if v else -1
+            mut.update(col=tname, row=r, to=tact['kind'], delta=abs(tact['values'][r] - (int(v) if isinstance(v, bool) else v)))
     elif mk == 'move':
         if len(act['cols']) < 3:
             mut = {'kind': 'copy'}
@@ -290,7 +315,13 @@ def run_case(ctx, case):
     d = ctx.scratch
     err = io.StringIO()
     try:
-        ref_df, act_df = F.build_frame(base), F.build_frame(act)
+        if case.get('shared_parent'):
+            # both frames are row windows of ONE parent frame (a lagged comparison): they share memory, not values
+            parent = F.build_frame(case['shared_parent'])
+            ref_df, act_df = parent.iloc[:-1], parent.iloc[1:]
+            rec.event('inputs:windows_of_one_parent')
+        else:
+            ref_df, act_df = F.build_frame(base), F.build_frame(act)
     except Exception as e:
         rec.note('harness could not build the frame (%s)' % type(e).__name__)
         return
@@ -424,6 +455,44 @@ def run_shard(ctx):
                       'opts': plain, 'entry': case['entry'], 'keep_ref': True, 'sequel': 'sorted-after'}
                 run_case(ctx, c3)
             ctx.rec.event('history:same_reference_reused')
+        if i % 10 == 7:
+            # "rows 1..n against rows 0..n-1" of one parent frame, handed over as the two slices themselves
+            rng = ctx.rng
+            pspec = gen_case(rng, 0)['base']
+            n1 = pspec['nrows']
+            if n1 >= 3:
+                b = {'cols': [dict(c, values=c['values'][:-1]) for c in pspec['cols']], 'nrows': n1 - 1}
+                a = {'cols': [dict(c, values=c['values'][1:]) for c in pspec['cols']], 'nrows': n1 - 1}
+                differing = [c['name'] for c in pspec['cols'] if c['values'][:-1] != c['values'][1:]]
+                plain = {'check_data': None, 'check_types': None, 'check_order': None, 'type_matching': None, 'sortby': None,
+                         'condition': None, 'precision': rng.choice([None, 2, 6])}
+                if rng.random() < 0.4:
+                    plain['check_data'] = [c['name'] for c in pspec['cols'][1:]]         # the key column left out
+                run_case(ctx, {'base': b, 'actual': a, 'mut': {'kind': 'swap_rows', 'rows': [0, 1], 'differing_cols': differing, 'sort_restores': False},
+                               'opts': plain, 'entry': rng.choice(['check_dataframe', 'assertDataFramesEqual']),
+                               'shared_parent': pspec, 'sequel': 'windows-of-one-parent'})
+        if i % 10 == 4:
+            # history on ONE comparison object: an assertion with an explicit coarse precision, then the same frames
+            # with the precision left out - the second verdict must be the default-precision verdict
+            rng = ctx.rng
+            n = rng.choice([2, 3, 5])
+            pc_ = rng.choice([0, 1, 2])
+            vals = [float(rng.randint(-50, 50)) for _ in range(n)]
+            base = {'cols': [{'name': 'k', 'kind': 'int64', 'values': list(range(n)), 'nulls': 'none'},
+                             {'name': 'c0', 'kind': 'float64', 'values': vals, 'nulls': 'none'}], 'nrows': n}
+            r_ = rng.randrange(n)
+            delta = 0.4 * 10 ** (-pc_)
+            act = copy.deepcopy(base)
+            act['cols'][1]['values'][r_] = vals[r_] + delta
+            plain = {'check_data': None, 'check_types': None, 'check_order': None, 'type_matching': None, 'sortby': None, 'condition': None}
+            entry = rng.choice(['assertDataFramesEqual', 'assertDataFrameCorrect-parquet'])
+            first = {'base': base, 'actual': act, 'mut': {'kind': 'float_small', 'col': 'c0', 'row': r_, 'delta': delta},
+                     'opts': dict(plain, precision=pc_), 'entry': entry, 'sequel': 'coarse-precision-first'}
+            second = {'base': base, 'actual': copy.deepcopy(act), 'mut': {'kind': 'float_large', 'col': 'c0', 'row': r_, 'delta': delta},
+                      'opts': dict(plain, precision=None), 'entry': entry, 'sequel': 'then-default-precision'}
+            run_case(ctx, first)
+            run_case(ctx, second)
+            ctx.rec.event('history:precision_then_default')
     for k, v in _counter.items():
         ctx.rec.event('reach:' + k, v)
     _counter.clear()
